@@ -554,19 +554,19 @@ func TestC48(t *testing.T) {
 		}
 	}
 	groupRelabel = "none"
-	for i, n := 0, vt.Pick(300, 2000); i < n; i++ {
+	for i, n := 0, vt.Pick(300, 1500); i < n; i++ {
 		add(randCase(rnd, false), 10)
 	}
 	flush()
 	for _, kind := range []string{"dropenv", "mapjob", "dropdev"} {
 		groupRelabel = kind
-		for i, n := 0, vt.Pick(60, 600); i < n; i++ {
+		for i, n := 0, vt.Pick(60, 300); i < n; i++ {
 			add(randCase(rnd, false), 10)
 		}
 		flush()
 	}
 	groupRelabel = "none"
-	for i, n := 0, vt.Pick(10, 100); i < n; i++ {
+	for i, n := 0, vt.Pick(10, 60); i < n; i++ {
 		add(randCase(rnd, true), 1)
 	}
 	flush()
